@@ -29,6 +29,7 @@ ASSUMPTIONS = ['phase_step is the default 1.5 pi for the enumeration and drawn f
 
 EDGES = (0.05, np.pi / 12, 0.5, np.pi / 2)
 STEP = 1.5 * np.pi
+OLD = []   # a few containers kept alive across cases (history: older containers must not change)
 
 
 def good_pred(seg, edge):
@@ -97,6 +98,16 @@ def check(ctx, phi, edge, mask, step, case, tag, container=True):
                 ctx.violation('is_good', 'is_good(%s, phase_edge=%.3g) = %s, predicate says %s' % (np.round(phi[s:e], 3).tolist()[:10], edge, r, g), case)
                 return
     if container and segs and mask is None:
+        # containers built earlier must still report their own flags after newer ones exist
+        for (ocyc, opreds, oedge) in list(OLD):
+            oflags = np.asarray(ocyc.metrics['is_good']).astype(int)
+            ctx.count('old_containers_rechecked')
+            if len(oflags) != len(opreds) or not np.array_equal(oflags, np.array(opreds, dtype=int)):
+                ctx.violation('container-shared-state', "an older Cycles(phase_edge=%.3g) container reports is_good = %s after newer containers "
+                              "were built; its own phase gives %s" % (oedge, oflags.tolist()[:12], [int(q) for q in opreds][:12]),
+                              dict(case, note='needs a history: build several containers, then read an older one'))
+                OLD.clear()
+                return
         for cache in (True, False):
             try:
                 cyc = C.Cycles(phi.copy(), phase_step=step, phase_edge=edge, use_cache=cache)
@@ -105,6 +116,10 @@ def check(ctx, phi, edge, mask, step, case, tag, container=True):
                 ctx.violation('container-exception:%s' % type(e).__name__, 'Cycles(...) raised %s: %s' % (type(e).__name__, str(e)[:100]), case)
                 return
             ctx.count('containers')
+            if cache and (len(OLD) < 4):
+                OLD.append((cyc, list(preds), edge))
+            elif cache and ctx.rng.random() < .05:
+                OLD[int(ctx.rng.integers(len(OLD)))] = (cyc, list(preds), edge)
             if len(flags) != len(preds) or not np.array_equal(flags, np.array(preds, dtype=int)):
                 dflt = [good_pred(phi[s:e], np.pi / 12) for s, e in segs]
                 key = 'container-is_good'
@@ -157,6 +172,21 @@ def run_shard(ctx):
         step = float(gens.pick(rng, [np.pi, 1.5 * np.pi, 1.9 * np.pi]))
         mask = None if rng.random() < .4 else masks_for(rng, len(phi))[int(rng.integers(2))]
         check(ctx, phi, edge, mask, step, {'kind': 'c13', 'phase': phi, 'phase_edge': edge, 'mask': mask, 'phase_step': step}, 'synthetic')
+        if i % 3 == 0:
+            # boundary probing: cycles that start / end a hair inside or outside the edge tolerance
+            probe = []
+            for _ in range(int(rng.integers(2, 6))):
+                d0 = float(gens.pick(rng, [0, 1e-12, 1e-9, 1e-6, 3e-5, 1e-4, 1e-3])) * float(gens.pick(rng, [-1, 1]))
+                d1 = float(gens.pick(rng, [0, 1e-12, 1e-9, 1e-6, 3e-5, 1e-4, 1e-3])) * float(gens.pick(rng, [-1, 1]))
+                a = min(max(edge + d0, 0.0), 2.0) if rng.random() < .5 else float(rng.uniform(0, edge))
+                b = 2 * np.pi - edge + d1 if rng.random() < .7 else float(rng.uniform(2 * np.pi - edge, 2 * np.pi))
+                b = min(b, np.nextafter(2 * np.pi, 0))
+                k = int(rng.integers(3, 9))
+                inner = np.sort(rng.uniform(a + 1e-3, b - 1e-3, k - 2)) if b - a > 1e-2 else np.array([])
+                probe.append(np.r_[a, inner, b])
+            phi2 = np.concatenate(probe)
+            ctx.count('edge_probing_cases')
+            check(ctx, phi2, edge, None, STEP, {'kind': 'c13', 'phase': phi2, 'phase_edge': edge, 'mask': None, 'phase_step': STEP}, 'edge-probe')
 
 
 def finalize(agg, tier):
